@@ -131,14 +131,31 @@ func sameFloats(a, b []float64) bool {
 	return true
 }
 
-func (h *harness) runCase(cs *caseSpec) {
+func (h *harness) runCase(cs *caseSpec) { h.runCaseWith(cs, nil) }
+
+// runHistory runs the cases one after the other with the SAME method value
+// (built for the first one); every run is judged with all clauses.
+func (h *harness) runHistory(hist []*caseSpec) {
+	var bm *builtMethod
+	for i, cs := range hist {
+		cs.run = i
+		bm = h.runCaseWith(cs, bm)
+	}
+}
+
+func (h *harness) runCaseWith(cs *caseSpec, bm *builtMethod) *builtMethod {
 	c := h.c
 	o := cs.obj
 	r := vrt.NewRand(cs.seed)
 	fuel := defaultFuel
 	led := newLedger(o, cs.ft, fuel)
 	led.gkind, led.gval = cs.gft.kind, cs.gft.val
-	bm := cs.m.build(o, r, led)
+	if bm == nil {
+		bm = cs.m.build(o, r, led)
+	} else {
+		bm.rebind(led)
+	}
+	bm.runs++
 	tr := &trace{led: led}
 	method := wrapMethod(bm.m, tr)
 
@@ -211,8 +228,8 @@ func (h *harness) runCase(cs *caseSpec) {
 		// Warm the method object up with an unrelated, unjudged run.
 		wo := simpleBowl(o.dim%3 + 1)
 		wp := optimize.Problem{Func: wo.f, Grad: wo.g, Hess: wo.h}
-		if cs.m.kind == mNM && cs.m.simplex {
-			// the stored simplex has the wrong dimension for the warm-up
+		if cs.m.kind == mNM && cs.m.simplex || cs.m.kind == mCMA && cs.m.cmaChol {
+			// the stored simplex / InitCholesky has the wrong dimension for the warm-up
 		} else if cs.m.kind != mLS {
 			vrt.TryFast(func() { optimize.Minimize(wp, wo.x0, &optimize.Settings{FuncEvaluations: 23}, bm.m) })
 		}
@@ -225,12 +242,20 @@ func (h *harness) runCase(cs *caseSpec) {
 		})
 	})
 	h.judge(cs, led, bm, tr, cb, rec, clog, set, f0, &out)
+	// Minimize must not modify what the user handed in.
+	if !sameFloats(x0, o.x0) {
+		h.violPath(cs, &out, "user-data", "initX-modified", fmt.Sprintf("the initX slice passed to Minimize was changed from %v to %v", o.x0, x0))
+	}
+	for _, what := range bm.mutatedUserData() {
+		h.violPath(cs, &out, "user-data", what+"-modified", fmt.Sprintf("Minimize (run %d with this method value) changed the user-supplied %s; InitialVertices now %v (supplied %v)", bm.runs, what, bm.nmVerts, bm.nmVertsSnap))
+	}
 	nontrivial := out.res != nil
 	c.Eval(cs.classKey(), nontrivial)
 	if nontrivial && c.WantSample() {
 		c.Sample(map[string]any{"case": cs.describe(), "status": out.res.Status.String(), "F": out.res.F, "X": out.res.X,
 			"stats": fmt.Sprintf("%+v", out.res.Stats), "err": fmt.Sprint(out.err)})
 	}
+	return bm
 }
 
 func (cs *caseSpec) pathClass() string {
@@ -289,7 +314,14 @@ func (cs *caseSpec) classKey() string {
 	if cs.s.runtime {
 		lim += "R"
 	}
-	return fmt.Sprintf("%s|%s|%s|%s|%s|%s|lim=%s|init=%d|conv=%d|rec=%v|cb=%d|%s", cs.group, cs.m.name(), cs.m.lsName(), cs.obj.name, cs.ft.name(), cs.pathClass(), lim, cs.s.init, cs.s.conv, cs.s.rec != 0, cs.s.cbKind, conc)
+	opt := ""
+	if cs.m.nmParams || cs.m.cmaChol || cs.m.cmaStep || cs.m.simplex {
+		opt = "|options"
+	}
+	if cs.run > 0 {
+		opt += "|reused-method-value"
+	}
+	return fmt.Sprintf("%s|%s|%s|%s|%s|%s|lim=%s|init=%d|conv=%d|rec=%v|cb=%d|%s"+opt, cs.group, cs.m.name(), cs.m.lsName(), cs.obj.name, cs.ft.name(), cs.pathClass(), lim, cs.s.init, cs.s.conv, cs.s.rec != 0, cs.s.cbKind, conc)
 }
 
 func (h *harness) viol(cs *caseSpec, out *runResult, clause, detail string) {
